@@ -122,6 +122,7 @@ func runC14(rc *runCtx) *RunResult {
 		rc.log("obj%d %s state=%d", i, describeObj(d), w.state[i])
 		rc.inc(fmt.Sprintf("init_state_%d", w.state[i]), 1)
 	}
+	drawKindMask(g.T)
 	nbursts := 1
 	if t.Chance(300) {
 		nbursts = 2
